@@ -19,6 +19,12 @@ func main() {
 		fmt.Fprintln(os.Stderr, "usage: znh <mode> | znh worker <mode>; modes:", pool.Modes())
 		os.Exit(2)
 	}
+	for _, a := range os.Args[1:] {
+		if a == "--child-worker" {
+			runChildWorker() // prefork worker spawned by the real master (C20)
+			return
+		}
+	}
 	if os.Args[1] == "worker" {
 		pool.RunWorker(os.Args[2])
 		return
